@@ -457,6 +457,28 @@ class World:
         return o
 
     def op_call(self, op: dict[str, Any]) -> str:
+        if op.get("thread"):
+            # the same call issued from a freshly started thread that is joined at once: still a sequence of calls
+            import threading
+
+            box: dict[str, Any] = {}
+
+            def run() -> None:
+                try:
+                    box["ret"] = self._op_call(op)
+                except BaseException as e:  # noqa: BLE001
+                    box["exc"] = e
+
+            t = threading.Thread(target=run, name="caller")
+            t.start()
+            t.join()
+            self.stats.probes["call_from_fresh_thread"] += 1
+            if "exc" in box:
+                raise box["exc"]
+            return box["ret"]
+        return self._op_call(op)
+
+    def _op_call(self, op: dict[str, Any]) -> str:
         m, opts = op["m"], op.get("opts", [])
         flt = op.get("fault")
         outcome = "ok"
@@ -573,6 +595,8 @@ class Gen:
             nonlocal step
             step += 1
             op["step"] = step
+            if op["op"] == "call" and w.cfg.get("threads") and r.random() < 0.35:
+                op["thread"] = True
             w.step(op)
 
         ntrees = r.choice([1, 2, 3])
@@ -650,7 +674,7 @@ def make_config(rseed: int, prop: str, tier: str, faults: bool) -> dict[str, Any
     rng = Rng(rseed)
     r = rng.s("config")
     strpool = r.sample(U.STR_POOL, r.choice([2, 3, 5]))
-    leafs = ["LeafA", "LeafB", "Carrier", "Carrier", "Vals", "Upper"] + r.sample(["Meta", "LeafA2", "Lit"], r.choice([0, 1, 3]))
+    leafs = ["LeafA", "LeafB", "Carrier", "Carrier", "Vals", "Upper"] + r.sample(["Meta", "LeafA2", "Lit", "Typed", "Located", "Both"], r.choice([0, 1, 3, 6]))
     return {
         "machine": NAME,
         "prop": prop,
@@ -658,12 +682,13 @@ def make_config(rseed: int, prop: str, tier: str, faults: bool) -> dict[str, Any
         "faults": faults,
         "p_opt": r.choice([0.2, 0.35, 0.5, 0.7]),
         "fault_budget": 64 if tier == "thorough" else r.choice([12, 24, 64]),
+        "threads": r.random() < 0.3,
         "build": {
             "maxd": r.choice([2, 3]),
             "maxw": r.choice([2, 3, 4]),
             "p_ref": r.choice([0.0, 0.1]),
             "leaf_classes": leafs,
-            "inner_classes": r.sample(["Pair", "Seq", "Mixed", "Fixed"], r.choice([2, 3, 4])),
+            "inner_classes": r.sample(["Pair", "Seq", "Mixed", "Fixed", "SeqPlus", "Falsy"], r.choice([2, 3, 4, 6])),
             "origins": r.sample(U.ORIGIN_KEYS + U.EXTRA_ORIGIN_KEYS, r.choice([2, 3, 5])),
             "pools": {"str": strpool, "bool": [True, False]},
             "actors": ["persister"],
